@@ -12773,3 +12773,401 @@ func ruleScopeFieldUnderBit(c *Ctx) {
 	}
 	c.Floor("scope-field-under-bit.reads", n, 3)
 }
+
+// ---------------------------------------------------------------------------
+// round 9
+
+// ruleIndexRolesAgree (C08, C07): the writers of a map-of-slices index of the pool agree on what is key and what is
+// element. Pool.conflicts maps the hash a transaction names in a Conflicts attribute to the hashes of the pooled
+// transactions that name it; Add and the rebuild in RemoveStale both enter (named hash -> own hash). A writer with the
+// roles exchanged leaves an index in which the lookup of an arriving transaction (by its own hash) finds nothing: the
+// transaction is admitted next to the pooled one that excludes it, and the block packed from the pool is refused.
+// For every statement `m[K] = append(m[K], V)` over a field of Pool: whether K, and whether V, is a Hash() call on a
+// transaction is the same in all writers of the field.
+func ruleIndexRolesAgree(c *Ctx) {
+	pk := c.P.Pkg("pkg/core/mempool")
+	if pk == nil {
+		c.Lost("index-roles-agree.anchor", "package mempool not found")
+		return
+	}
+	info := pk.TypesInfo
+	isOwnHash := func(e ast.Expr) bool {
+		call, ok := ast.Unparen(e).(*ast.CallExpr)
+		if !ok {
+			return false
+		}
+		fn := calleeFunc(info, call)
+		return fn != nil && fn.Name() == "Hash" && strings.HasSuffix(FuncKey(fn), "transaction.(*Transaction).Hash")
+	}
+	type shape struct {
+		k, v bool
+		pos  token.Pos
+		fn   string
+	}
+	writers := map[string][]shape{}
+	for _, fd := range c.P.AllFuncDecls() {
+		if fd.Pkg != pk || fd.Decl.Body == nil {
+			continue
+		}
+		ast.Inspect(fd.Decl.Body, func(x ast.Node) bool {
+			as, ok := x.(*ast.AssignStmt)
+			if !ok || len(as.Lhs) != 1 || len(as.Rhs) != 1 {
+				return true
+			}
+			ix, ok := ast.Unparen(as.Lhs[0]).(*ast.IndexExpr)
+			if !ok {
+				return true
+			}
+			se, ok := ast.Unparen(ix.X).(*ast.SelectorExpr)
+			if !ok {
+				return true
+			}
+			fv, ok := info.ObjectOf(se.Sel).(*types.Var)
+			if !ok || !fv.IsField() {
+				return true
+			}
+			call, ok := ast.Unparen(as.Rhs[0]).(*ast.CallExpr)
+			if !ok || len(call.Args) != 2 {
+				return true
+			}
+			if id, ok := call.Fun.(*ast.Ident); !ok || id.Name != "append" {
+				return true
+			}
+			if !sameExpr(info, call.Args[0], as.Lhs[0]) {
+				return true
+			}
+			k := resolveLocalOnce(info, fd.Decl.Body, ix.Index)
+			v := resolveLocalOnce(info, fd.Decl.Body, call.Args[1])
+			writers[fv.Name()] = append(writers[fv.Name()], shape{isOwnHash(k), isOwnHash(v), as.Pos(), shortSym(FuncKey(fd.Obj))})
+			return true
+		})
+	}
+	n := 0
+	for _, name := range sortedKeys(writers) {
+		ws := writers[name]
+		if len(ws) < 2 {
+			continue
+		}
+		n++
+		// the reference is the majority shape; with two writers the first in source order (Add precedes RemoveStale)
+		ref := ws[0]
+		for i, w := range ws {
+			key := fmt.Sprintf("index-roles-agree:%s.%s#%d", name, w.fn, i)
+			if w.k == ref.k && w.v == ref.v {
+				c.OK(key, c.P.Pos(w.pos), "key and element of the index have the roles its other writers give them")
+			} else {
+				c.Fail(key, c.P.Pos(w.pos), fmt.Sprintf("%s enters Pool.%s with the roles of key and element exchanged with respect to %s (there: key is the transaction's own hash = %v, element is = %v): the readers look the index up by one convention only, so after this writer ran (the rebuild after every block) a conflicting transaction is not found, both are pooled and the block built from the pool is refused by the ledger", w.fn, name, ref.fn, ref.k, ref.v))
+			}
+		}
+	}
+	c.Floor("index-roles-agree.indexes with several writers", n, 1)
+}
+
+// ruleNewValFlagProvenance (C11, C10): newSubTrie(path, node, newVal) adds a reference for node when newVal is true. A
+// node that comes out of the existing trie (an extension's next, a branch's child) already has the reference of the
+// place it is moved from - which removeRef of the parent does not take away - and a node that was just made has none.
+// The flag of every call follows the provenance of the node, traced through locals, type assertions and parameters
+// (all call sites of the enclosing function in package mpt must agree).
+func ruleNewValFlagProvenance(c *Ctx) {
+	pk := c.P.Pkg("pkg/core/mpt")
+	if pk == nil {
+		c.Lost("newval-flag-provenance.anchor", "package mpt not found")
+		return
+	}
+	info := pk.TypesInfo
+	var decls []*FuncDecl
+	for _, fd := range c.P.AllFuncDecls() {
+		if fd.Pkg == pk && fd.Decl.Body != nil {
+			decls = append(decls, fd)
+		}
+	}
+	type pkey struct {
+		fn  *types.Func
+		idx int
+	}
+	var classify func(fd *FuncDecl, e ast.Expr, seen map[pkey]bool) string // "fresh", "existing", "", "?"
+	classify = func(fd *FuncDecl, e ast.Expr, seen map[pkey]bool) string {
+		e = ast.Unparen(e)
+		if ta, ok := e.(*ast.TypeAssertExpr); ok {
+			return classify(fd, ta.X, seen)
+		}
+		e = ast.Unparen(resolveLocalOnce(info, fd.Decl.Body, e))
+		if ta, ok := e.(*ast.TypeAssertExpr); ok {
+			return classify(fd, ta.X, seen)
+		}
+		switch x := e.(type) {
+		case *ast.CallExpr:
+			if fn := calleeFunc(info, x); fn != nil && strings.HasPrefix(fn.Name(), "New") && strings.HasSuffix(fn.Name(), "Node") {
+				return "fresh"
+			}
+			return "?"
+		case *ast.SelectorExpr:
+			if x.Sel.Name == "next" || x.Sel.Name == "root" {
+				return "existing"
+			}
+			return "?"
+		case *ast.IndexExpr:
+			if se, ok := ast.Unparen(x.X).(*ast.SelectorExpr); ok && se.Sel.Name == "Children" {
+				return "existing"
+			}
+			return "?"
+		case *ast.Ident:
+			o := info.ObjectOf(x)
+			sig := fd.Obj.Type().(*types.Signature)
+			for i := 0; i < sig.Params().Len(); i++ {
+				if sig.Params().At(i) != o {
+					continue
+				}
+				k := pkey{fd.Obj, i}
+				if seen[k] {
+					return ""
+				}
+				seen[k] = true
+				res := ""
+				for _, cd := range decls {
+					ast.Inspect(cd.Decl.Body, func(y ast.Node) bool {
+						call, ok := y.(*ast.CallExpr)
+						if !ok || calleeFunc(info, call) != fd.Obj || i >= len(call.Args) {
+							return true
+						}
+						r := classify(cd, call.Args[i], seen)
+						switch {
+						case r == "":
+						case res == "" || res == r:
+							res = r
+						default:
+							res = "?"
+						}
+						return true
+					})
+				}
+				return res
+			}
+			return "?"
+		}
+		return "?"
+	}
+	n := 0
+	for _, fd := range decls {
+		ast.Inspect(fd.Decl.Body, func(x ast.Node) bool {
+			call, ok := x.(*ast.CallExpr)
+			if !ok || len(call.Args) != 3 {
+				return true
+			}
+			fn := calleeFunc(info, call)
+			if fn == nil || fn.Name() != "newSubTrie" {
+				return true
+			}
+			n++
+			key := fmt.Sprintf("newval-flag-provenance:%s#%d", shortSym(FuncKey(fd.Obj)), n)
+			flag, isConst := boolConst(info, call.Args[2])
+			prov := classify(fd, call.Args[1], map[pkey]bool{})
+			switch {
+			case !isConst || prov == "?" || prov == "":
+				c.Unclassified(key, c.P.Pos(call.Pos()), fmt.Sprintf("provenance of %s (%q) or the flag is not decided", types.ExprString(call.Args[1]), prov))
+			case (prov == "fresh") == flag:
+				c.OK(key, c.P.Pos(call.Pos()), fmt.Sprintf("%s is %s and newVal is %v", types.ExprString(call.Args[1]), prov, flag))
+			default:
+				c.Fail(key, c.P.Pos(call.Pos()), fmt.Sprintf("%s calls newSubTrie(…, %s, %v) and %s is a node %s: %s", shortSym(FuncKey(fd.Obj)), types.ExprString(call.Args[1]), flag, types.ExprString(call.Args[1]),
+					map[string]string{"fresh": "that was just made", "existing": "taken out of the existing trie"}[prov],
+					map[bool]string{true: "it already carries the reference of the place it is moved from, so the stored count exceeds the number of occurrences - once the subtree is removed its root record stays in the store for ever (ModeLatest) or stays active and is never collected (ModeGC)", false: "nothing else adds its reference, so the stored count is one short and a later removal deletes a record that is still referenced"}[flag]))
+			}
+			return true
+		})
+	}
+	c.Floor("newval-flag-provenance.calls", n, 5)
+}
+
+// ruleSeekGCKeepIndependent (C09): the handler of SeekGC answers two independent questions, "keep this pair?" and "go
+// on?"; "drop it and stop" is an answer the ledger's header-page collector gives for the boundary page. Every backend
+// acts on the first answer before it looks at the second: in each SeekGC implementation the first statement that
+// mentions the continue-flag comes after the statement that tests the keep-flag.
+func ruleSeekGCKeepIndependent(c *Ctx) {
+	n := 0
+	for _, fd := range c.P.AllFuncDecls() {
+		if fd.Decl.Body == nil || fd.Decl.Recv == nil || fd.Decl.Name.Name != "SeekGC" || pkgRel(fd.Pkg.Types) != "pkg/core/storage" {
+			continue
+		}
+		info := fd.Pkg.TypesInfo
+		fn := FuncKey(fd.Obj)
+		ast.Inspect(fd.Decl.Body, func(x ast.Node) bool {
+			bs, ok := x.(*ast.BlockStmt)
+			if !ok {
+				return true
+			}
+			for i, st := range bs.List {
+				as, ok := st.(*ast.AssignStmt)
+				if !ok || len(as.Lhs) != 2 || len(as.Rhs) != 1 {
+					continue
+				}
+				call, ok := as.Rhs[0].(*ast.CallExpr)
+				if !ok {
+					continue
+				}
+				// a call of a function-typed parameter with two bool results
+				id, ok := call.Fun.(*ast.Ident)
+				if !ok {
+					continue
+				}
+				if v, ok := info.ObjectOf(id).(*types.Var); !ok || !isFuncParam(fd, info, v) {
+					continue
+				}
+				keep, ok1 := as.Lhs[0].(*ast.Ident)
+				cont, ok2 := as.Lhs[1].(*ast.Ident)
+				if !ok1 || !ok2 {
+					continue
+				}
+				ko, co := info.ObjectOf(keep), info.ObjectOf(cont)
+				first := func(o types.Object) int {
+					for j := i + 1; j < len(bs.List); j++ {
+						hit := false
+						ast.Inspect(bs.List[j], func(y ast.Node) bool {
+							if u, ok := y.(*ast.Ident); ok && info.ObjectOf(u) == o {
+								hit = true
+							}
+							return true
+						})
+						if hit {
+							return j
+						}
+					}
+					return -1
+				}
+				fk, fc := first(ko), first(co)
+				n++
+				key := "seekgc-keep-independent:" + fn
+				switch {
+				case fk < 0:
+					c.Fail(key, c.P.Pos(as.Pos()), fn+" never looks at the handler's keep answer")
+				case fc >= 0 && fc < fk:
+					c.Fail(key, c.P.Pos(bs.List[fc].Pos()), fn+" looks at the handler's continue answer before it has acted on the keep answer: a pair the handler wants dropped *and* stops at (the boundary page of the header-hash collector) stays in this backend and is deleted by the others - the backends no longer hold the same map")
+				default:
+					c.OK(key, c.P.Pos(as.Pos()), "the keep answer is acted on before the continue answer is looked at")
+				}
+			}
+			return true
+		})
+	}
+	c.Floor("seekgc-keep-independent.backends", n, 3)
+}
+
+func isFuncParam(fd *FuncDecl, info *types.Info, v *types.Var) bool {
+	for _, fl := range fd.Decl.Type.Params.List {
+		for _, nm := range fl.Names {
+			if info.ObjectOf(nm) == v {
+				_, ok := v.Type().Underlying().(*types.Signature)
+				return ok
+			}
+		}
+	}
+	return false
+}
+
+// ruleSeekCallbackClones (C09): the slices a lower store hands to a Seek callback belong to its iterator (LevelDB
+// reuses the buffer on the next step, BoltDB's point into a page that is valid inside the transaction only). What a
+// callback of package storage keeps of them beyond its own return - in a composite literal, an outer variable, a
+// channel - is a copy.
+func ruleSeekCallbackClones(c *Ctx) {
+	pk := c.P.Pkg("pkg/core/storage")
+	if pk == nil {
+		c.Lost("seek-callback-clones.anchor", "package storage not found")
+		return
+	}
+	info := pk.TypesInfo
+	isBytes := func(t types.Type) bool {
+		s, ok := t.Underlying().(*types.Slice)
+		if !ok {
+			return false
+		}
+		b, ok := s.Elem().Underlying().(*types.Basic)
+		return ok && b.Kind() == types.Byte
+	}
+	n, kept := 0, 0
+	for _, fd := range c.P.AllFuncDecls() {
+		if fd.Pkg != pk || fd.Decl.Body == nil {
+			continue
+		}
+		// function literals handed to a Seek of a lower store: directly, or through a local
+		lits := map[*ast.FuncLit]bool{}
+		ast.Inspect(fd.Decl.Body, func(x ast.Node) bool {
+			call, ok := x.(*ast.CallExpr)
+			if !ok {
+				return true
+			}
+			se, ok := ast.Unparen(call.Fun).(*ast.SelectorExpr)
+			if !ok || se.Sel.Name != "Seek" {
+				return true
+			}
+			for _, a := range call.Args {
+				if fl, ok := ast.Unparen(resolveLocalOnce(info, fd.Decl.Body, a)).(*ast.FuncLit); ok {
+					lits[fl] = true
+				}
+			}
+			return true
+		})
+		for fl := range lits {
+			params := map[types.Object]bool{}
+			for _, f := range fl.Type.Params.List {
+				for _, nm := range f.Names {
+					if o := info.ObjectOf(nm); o != nil && isBytes(o.Type()) {
+						params[o] = true
+					}
+				}
+			}
+			if len(params) == 0 {
+				continue
+			}
+			n++
+			bare := func(e ast.Expr) (string, bool) {
+				id, ok := ast.Unparen(e).(*ast.Ident)
+				if ok && params[info.ObjectOf(id)] {
+					return id.Name, true
+				}
+				if sl, ok := ast.Unparen(e).(*ast.SliceExpr); ok { // k[1:] shares the buffer
+					if id, ok := ast.Unparen(sl.X).(*ast.Ident); ok && params[info.ObjectOf(id)] {
+						return id.Name, true
+					}
+				}
+				return "", false
+			}
+			report := func(pos token.Pos, name, how string) {
+				kept++
+				c.Fail(fmt.Sprintf("seek-callback-clones:%s.%s", shortSym(FuncKey(fd.Obj)), name), c.P.Pos(pos), fmt.Sprintf("the Seek callback in %s keeps %s, a slice the lower store handed it, %s without copying: the buffer belongs to the backend's iterator (LevelDB overwrites it on the next step, BoltDB unmaps it with the transaction), so a pair already delivered to an asynchronous consumer silently takes another pair's bytes", shortSym(FuncKey(fd.Obj)), name, how))
+			}
+			ast.Inspect(fl.Body, func(x ast.Node) bool {
+				switch y := x.(type) {
+				case *ast.KeyValueExpr:
+					if nm, ok := bare(y.Value); ok {
+						report(y.Pos(), nm, "in a composite literal")
+					}
+				case *ast.CompositeLit:
+					for _, el := range y.Elts {
+						if nm, ok := bare(el); ok {
+							report(el.Pos(), nm, "in a composite literal")
+						}
+					}
+				case *ast.SendStmt:
+					if nm, ok := bare(y.Value); ok {
+						report(y.Pos(), nm, "on a channel")
+					}
+				case *ast.AssignStmt:
+					if y.Tok == token.ASSIGN {
+						for i, r := range y.Rhs {
+							if nm, ok := bare(r); ok && i < len(y.Lhs) {
+								// an outer variable or a field
+								if id, ok := y.Lhs[i].(*ast.Ident); !ok || (info.ObjectOf(id) != nil && info.ObjectOf(id).Pos() < fl.Pos()) {
+									report(y.Pos(), nm, "in a variable that outlives the call")
+								}
+							}
+						}
+					}
+				}
+				return true
+			})
+		}
+	}
+	if kept == 0 && n > 0 {
+		c.OK("seek-callback-clones", "pkg/core/storage", fmt.Sprintf("%d Seek callbacks keep nothing of the lower store's slices without copying", n))
+	}
+	c.Floor("seek-callback-clones.callbacks handed to a lower store", n, 1)
+}
